@@ -244,8 +244,8 @@ def fix_store_addresses(item):
 
 def sig(it, k, why, build, e, a):
     m = it["module"]
-    memimp = any(i["kind"] == "memory" for i in m["imports"])
-    if memimp and m["data"] and ("memory" in why or "result" in why or "host call" in why):
+    memimp = any(i["kind"] == "memory" for i in m.get("imports", []))
+    if memimp and m.get("data") and ("memory" in why or "result" in why or "host call" in why):
         return "imported-memory:%s" % why.split(":")[0].split(" ")[0]
     return "%s:%s" % (it["id"], why.split(":")[0])
 
@@ -288,8 +288,13 @@ def main():
             icalls = [{"op": "call", "inst": 1, "export": "icall", "args": [arg("i32", s_)]} for s_ in sorted(occ)] \
                 if any(e_["name"] == "icall" for e_ in it["module"]["exports"]) else []
             reads1 = [o_ for o_ in c1 if o_["export"].startswith(("get", "peek"))][:12]
+            # ... and by the child's release: the parent still owns everything it defined (its table, its memory, its globals)
             items.append(dict(it, id=it["id"] + "c", script=it["script"] + icalls + [{"op": "child", "inst": 1}] +
-                              [dict(o_, inst=ninst_ + 1) for o_ in icalls + c1] + reads1 + icalls))
+                              [dict(o_, inst=ninst_ + 1) for o_ in icalls + c1] + reads1 + icalls +
+                              # (a SHARED defined memory is one object for the whole family and goes with whichever instance is
+                              # released first - who owns it is the embedder's protocol, not something the properties state)
+                              ([{"op": "free", "inst": ninst_ + 1}] + icalls + reads1
+                               if j % 2 == 0 and not (it["module"].get("memory") or {}).get("shared") else [])))
     # numbers of globals, data segments and element segments around powers of two: every one of them initialised
     for cnt in ((0, 1, 2, 16, 17, 33, 64, 65, 129) if tier == "quick" else (0, 1, 2, 15, 16, 17, 31, 32, 33, 63, 64, 65, 127, 128, 129, 255, 256, 257)):
         n1 = max(cnt, 1)
@@ -319,7 +324,7 @@ def main():
     for memk in ("defined", "shared", "imported"):
         peek = {"type": 0, "locals": [], "body": [["local.get", 0], ["i32.load8_u", 0, 0], ["end"]]}
         m = {"types": [{"p": ["i32"], "r": ["i32"]}], "funcs": [peek], "data": [dict(x) for x in layers],
-             "exports": [{"name": "peek", "kind": "func", "idx": 0}]}
+             "exports": [{"name": "peek", "kind": "func", "idx": 0}], "imports": []}
         script = []
         if memk == "imported":
             m["imports"] = [{"mod": "env", "name": "mem", "kind": "memory", "min": 1, "max": 2}]
